@@ -61,6 +61,8 @@ template <class A> static Verdict check_type(const std::string &text, const std:
   std::string out2;
   VF_REQUIRE(to_string<A>(p.uri, &out2), "%s: uriToString failed on the owned copy", A::name());
   VF_REQUIRE(out2 == expected, "%s: owned copy recomposes to '%s', expected '%s'", A::name(), esc(out2).c_str(), esc(expected).c_str());
+  // ... and still compares equal to the second parse (nothing of it may depend on the released buffer)
+  VF_REQUIRE(A::EqualsUri(&p.uri, &q.uri) == URI_TRUE && A::EqualsUri(&q.uri, &p.uri) == URI_TRUE, "%s: owned copy no longer equals the re-parsed URI once its source buffer is gone", A::name());
   // a second text produced from the second parse is a fixed point
   std::string out3;
   VF_REQUIRE(to_string<A>(q.uri, &out3) && out3 == out, "%s: recomposition is not a fixed point", A::name());
@@ -78,6 +80,7 @@ template <class A> static Verdict check_type(const std::string &text, const std:
     stats().hit("fault_bit_but_parse_reports_success");
     std::string o;
     VF_REQUIRE(to_string<A>(f.uri, &o) && o == expected, "%s: parse with allocation %d failing reports success but recomposes to '%s', expected '%s'", A::name(), k, esc(o).c_str(), esc(expected).c_str());
+    VF_REQUIRE(A::EqualsUri(&f.uri, &q.uri) == URI_TRUE && snapshot<A>(f.uri).sameAs(snapshot<A>(q.uri)), "%s: parse with allocation %d failing reports success but the URI differs from the parse of its own text", A::name(), k);
   }
   for (int k = 1; k <= 24; k++) {
     Parsed<A> f;
@@ -93,6 +96,7 @@ template <class A> static Verdict check_type(const std::string &text, const std:
     stats().hit("fault_bit_but_make_owner_reports_success");
     std::string o;
     VF_REQUIRE(to_string<A>(f.uri, &o) && o == expected, "%s: make-owner with allocation %d failing reports success but recomposes to '%s', expected '%s'", A::name(), k, esc(o).c_str(), esc(expected).c_str());
+    VF_REQUIRE(A::EqualsUri(&f.uri, &q.uri) == URI_TRUE, "%s: make-owner with allocation %d failing reports success but the URI differs from the parse of its own text", A::name(), k);
   }
   return Verdict::pass();
 }
